@@ -395,6 +395,16 @@ def _handlers(run, P):
             c = n.test.args[1]
             for e in (c.elts if isinstance(c, ast.Tuple) else [c]):
                 dropped.add(dotted(e))
+    # the same filter written into a comprehension: [... for s in ... if not isinstance(s, Nop)]
+    for n in ast.walk(lower.node):
+        if isinstance(n, ast.comprehension):
+            for t_ in n.ifs:
+                if isinstance(t_, ast.UnaryOp) and isinstance(t_.op, ast.Not) \
+                        and isinstance(t_.operand, ast.Call) and dotted(t_.operand.func) == "isinstance" \
+                        and len(t_.operand.args) == 2:
+                    c = t_.operand.args[1]
+                    for e in (c.elts if isinstance(c, ast.Tuple) else [c]):
+                        dropped.add(dotted(e))
     for K in sm.statement_classes(P):
         ex = sm.exec_method_name(P, K)
         fi = P.method(I, ex)
@@ -712,6 +722,12 @@ def _step(run, P):
                 if isinstance(arg, ast.BinOp) and dotted(arg.right) == kname:
                     prefix = string_value(arg.left)
                     ok = prefix is not None and prefix.startswith("self.")
+    if not ok and comps and any(isinstance(x, ast.Call) and (dotted(x.func) or "").startswith("self._name_manager.")
+                                for x in ast.walk(comps[0])):
+        # the method names come from the name manager (phase names that are no identifiers):
+        # that they are distinct and agree with the emitted defs is C13's kind of question
+        raise AnalysisError("_emit_constructor: phase method names come from the name manager; "
+                            "the table clause does not read that form")
     run.ob("C01.step", fc, comps[0] if comps else fc.node, ok,
            construct="phase_transition_table = {name: (phase.next_phase, self.phase_<name>)}",
            why="the default successor and the function run must belong to the same phase")
@@ -1167,6 +1183,16 @@ def _selfcontained(run, P):
                        and isinstance(x.ctx, ast.Load) and x.id not in bound and not hasattr(_b, x.id)})
         outside = [v for v in free if v in module_names]
         n += 1
+        if free and set(free) <= module_names:
+            # module-level helpers of builtins_python: in scope in the generated module if
+            # the generator copies them as well (in front of the class) - whether it does
+            # is in how _emit_inner_classes takes the source apart, not decided here
+            ic_ = P.func(f"{PYGEN}._emit_inner_classes")
+            copies_more = sum(1 for c_ in ast.walk(ic_.node) if isinstance(c_, ast.Constant)
+                              and isinstance(c_.value, str) and c_.value.startswith("def ")) > 1
+            if copies_more:
+                raise AnalysisError(f"{f.name} uses the module-level {free} and the generator copies "
+                                    f"more than the built-ins; not decided")
         run.ob("C01.binding", f, f.node, not free,
                construct=f"{f.name} uses only its parameters, locals, its own imports and Python "
                          f"built-ins" + (f" (also: {free})" if free else ""),
